@@ -20,7 +20,9 @@ harness fills with the library's own in-process answers; `yaml-set` applies the 
 (`MultiDoc.mergeDocs`) with an arbitrary pairwise merge.
 
 `yaml-merge` is modelled AS REPAIRED by `fixes/C16-1.patch` (the implicit standard input is the
-left-hand stream when no file was named; the pinned code indexes an empty list).
+left-hand stream when no file was named; the pinned code indexes an empty list), `yaml-get` AS REPAIRED
+by `fixes/C16-2.patch` (an anchored Boolean prints as `True`/`False`, not `1`/`0`) and
+`fixes/C16-3.patch` (exit status 1 when the query yielded nothing at all — the null document).
 Core Lean only.
 -/
 namespace Ypv.Cli
@@ -117,7 +119,9 @@ def get (ev : Node → Query) (a : GetArgs) (tty : Bool) (ld : Option Node) : Ou
       match (ev d).err with
       | some .ypath => ⟨[], 1⟩
       | some .eyaml => ⟨[], 2⟩
-      | none => ⟨(ev d).nodes.map render, 0⟩
+      | none =>
+        -- nothing gathered (a null document yields nothing and raises nothing): `fixes/C16-3.patch`
+        if (ev d).nodes.isEmpty then ⟨[], 1⟩ else ⟨(ev d).nodes.map render, 0⟩
 
 /-! ## yaml-set -/
 
@@ -264,6 +268,9 @@ def setRun (a : SetArgs) (d : Node) (g : Gather) (segs : Option (List PSeg)) : O
     | true =>
       if savetoSet a then
         (if addrs.length > 1 then some (.fail 1) else none)
+      else if a.src == .none && !a.tag && !a.eyamlcrypt then
+        -- nothing to apply (`--anchor` of blanks/`&`/`*` only passes validation): written back as it is
+        some ⟨0, some (setDest a, d), if a.backup then some d else none⟩
       else match setOp a g segs with
         | none => none
         | some op =>
